@@ -17,6 +17,8 @@ THEOREMS = [
     "Canopen.C07.Lib.distPeer_lib_forwards",
     "Canopen.C07.Lib.download_never_silently_wrong_lib",
     "Canopen.C07.Lib.next_transfer_clean_lib",
+    "Canopen.C07.Lib.upload_never_silently_wrong_lib",
+    "Canopen.C07.Lib.schedPeer_lib_honest",
     "Canopen.C07.timeout_aborts",
     "Canopen.C07.abort_raises",
     "Canopen.C07.downloadWith_ok",
@@ -332,8 +334,9 @@ CORPUS = [
 
 LEVEL_TEXT = ("Library client against the library's own server: a download that returns normally under ANY alteration "
               "of the responses has stored exactly the payload in the local node; the server state stays well-formed "
-              "whatever frames reach it; from any such state and any stale queue the next download/upload pair is "
-              "exact.  Lean 4 theorems about the client model under response disturbances: a request whose response does not "
+              "whatever frames reach it; an upload that returns normally under any schedule of lost / aborted / "
+              "duplicated responses (any honest peer) returns exactly the node's value; from any such state and any "
+              "stale queue the next download/upload pair is exact.  Lean 4 theorems about the client model under response disturbances: a request whose response does not "
               "arrive is followed by the abort frame 0x05040000 and a communication error (every step, any peer); an "
               "abort frame raises the aborted error with its code; a download that returns normally has delivered "
               "exactly the payload under ANY alteration of the responses; an upload that returns normally under any "
